@@ -264,7 +264,7 @@ def rand_family(rng, kind=None):
     cat = [t for r, ts in T_CAT.items() if r <= rank for t in ts]
     fam = dict(kind=kind, rank=rank, tTR=rng.choice(cat), tInv=rng.choice(cat))
     if kind == "E":
-        ne = rng.choice([1, 1, 2, 2, 3, 0])
+        ne = rng.choice([1, 1, 2, 2, 3])           # ResultAlg!EnergyShapeOK: at least one energy axis
         fam["shape"] = tuple(rng.randint(1, 3) for _ in range(ne))
         fam["en"] = tuple(tuple(sorted(rng.sample(range(-5, 9), n))) for n in fam["shape"])
     else:
@@ -439,7 +439,7 @@ def check(pid, tier):
     if thorough:
         run_model(rep, "c16_mc", mc_cfg(fams, 2, pairs="PairsB", act=("Inversion", "TimeReversal", "C4z", "TRMx")), replayer, workers, 2)
         # three operations: TLC only (the behaviours of this depth are sampled by the simulation below)
-        st3 = tlc.run_tlc("MC_ResultAlg.tla", mc_cfg([6, 10], 3, act=("TRMx",)), "c16_mc3", workers=workers, timeout=3000)
+        st3 = tlc.run_tlc("MC_ResultAlg.tla", mc_cfg([6, 10], 3, act=("TRMx",)), "c16_mc3", workers=workers, timeout=3000, coverage=False)
         if st3.get("timeout") or (st3.get("error") and not st3.get("violation")):
             raise MachineryError(f"TLC failed on c16_mc3: {st3.get('error')}")
         if not ftable.spec_violation(rep, st3, "c16_mc3"):
@@ -526,6 +526,14 @@ def check(pid, tier):
         rep.part("observations", save_with_undeclared_transform="works")
     except Exception as ex:
         rep.part("observations", save_with_undeclared_transform=f"raises {type(ex).__name__}: {ex} (outside the specified domain: Savable)")
+
+    try:
+        ps = RA.wb()[4]
+        z = RA.wb()[0]([], np.array(1.0), transformTR=ps.Transform(), transformInv=ps.Transform(factor=-1))
+        z.transform(ps.Inversion)
+        rep.part("observations", transform_without_energy_axes_rank0="works")
+    except Exception as ex:
+        rep.part("observations", transform_without_energy_axes_rank0=f"raises {type(ex).__name__}: {ex} (outside the specified domain: EnergyShapeOK)")
 
     replayer.flush()
     shutil.rmtree(scratch, ignore_errors=True)
